@@ -111,7 +111,8 @@ ApplyRes1D(e) ==
         tmin == [k \in full |-> VMin(e.probes[k].theory)]
         tmax == [k \in full |-> VMax(e.probes[k].theory)]
     IN
-    IF ~FVecIncreasing(e.q) /\ n > 1 THEN << <<"harness-unsorted-q", "">> >>
+    \* the data's q values are in non-decreasing order (a value may occur twice: data merged from two settings)
+    IF n > 1 /\ \E i \in 1..(n - 1) : FLt(e.q[i + 1], e.q[i]) THEN << <<"harness-unsorted-q", "">> >>
     ELSE IF e.raised THEN << <<"constructs", e.error>> >>
     ELSE IF e.cls = "Perfect1D"
     THEN Bad(FVecBits(qc, e.q), "perfect-qcalc-is-q", "")
